@@ -238,6 +238,10 @@ fn run_conn(id: u64, limit: u64, stream: &[u8], ops: &[Arg], out: &mut Vec<Strin
                         conn.pending_write() as u8,
                         reqs
                     );
+                    if l[0].n() == 13 {
+                        // a held read shows how many completed requests are queued in the connection
+                        line.push_str(&format!(" q={}", conn.verif_digest()[5]));
+                    }
                     if shadow_mode {
                         if let Some((sc, sm)) = shadow.as_mut() {
                             // replay on the shadow what the main connection just received
